@@ -32,11 +32,17 @@ def error_blocks(b):
 
 
 def on_error_path(b, bb, errs=None):
-    """every path from entry to bb passes through an error exit (`_0 = Err(..)` / from_residual)"""
+    """the drop at bb happens only on error exits: every path from entry to bb passes through an error exit
+    (`_0 = Err(..)` / from_residual), or — when normal and error exits share their cleanup tail, as after an early
+    `return Ok(..)` — no path that avoids the error exits reaches bb with the drop flag set / the variant alive"""
     errs = error_blocks(b) if errs is None else errs
     if bb in errs:
         return True
-    return bb not in b.reach_from(0, avoid=errs)
+    if bb not in b.reach_from(0, avoid=errs):
+        return True
+    cut = {(p, e) for e in errs for p in b.pred(e)}
+    st = feasible_states(b, bb, cut_edges=cut)
+    return not st
 
 
 def loop_exit_of_iterator(b, bb, place):
@@ -166,10 +172,14 @@ def incoming_paths(b, bb, depth=12):
     seen = set()
     count = 0
     work = [(bb, 0)]
+    errs = error_blocks(b)
+    normal = b.reach_from(0, avoid=errs)  # ways in that exist only on error exits are not new normal-path sites
     while work:
         x, d = work.pop()
         for p in b.pred(x):
             if p not in b.reachable() or (p, x) in seen:
+                continue
+            if p not in normal:
                 continue
             seen.add((p, x))
             trivial = b.term(p)["k"] in ("goto", "drop") and all(_flag_stmt(b, st) for st in b.stmts(p)) and d < depth
